@@ -49,6 +49,13 @@ fn points(order: usize, f32: bool) -> Vec<(Func, String, f64)> {
     for s in [1.0, -1.0] {
         v.push((Func::ExpM1, "exp_m1@denormal".into(), s * tiny));
         v.push((Func::Ln1p, "ln_1p@denormal".into(), s * tiny));
+        // a little further out, where exp(x) - 1 and ln(1 + x) formed naively are exactly 0 or have
+        // lost most digits although x itself is a perfectly normal number
+        let small: [(f64, &str); 4] = if f32 { [(1e-30, "1e-30"), (1e-12, "1e-12"), (3e-8, "eps/4"), (1e-5, "1e-5")] } else { [(1e-300, "1e-300"), (1e-40, "1e-40"), (5e-17, "eps/4"), (1e-10, "1e-10")] };
+        for (m, nm) in small {
+            v.push((Func::ExpM1, format!("exp_m1@{}", nm), s * m));
+            v.push((Func::Ln1p, format!("ln_1p@{}", nm), s * m));
+        }
         v.push((Func::Powi(3), "powi(3)@denormal".into(), s * tiny));
         v.push((Func::Powi(2), "powi(2)@denormal".into(), s * tiny));
     }
@@ -255,7 +262,7 @@ fn main() {
     let required = vec![(format!("at least 150 distinct (function, point) pairs observed (seen {})", pts.len()), pts.len() >= 150)];
     ctx.finish(
         acc,
-        "class = (function@point, type, part style); non-trivial = derivative parts not all zero. The point set is enumerated completely per type (exhaustive over (function, point, type)); derivative parts are random draws. Points: powi(0, n) n = 0..8 at +-0 and denormals; powf(0, p) for integer p = 0..7 and p in {1.5,...,6.5} exceeding the order of the type; exp_m1 / ln_1p at +-0 and denormals; sph_j0/1/2 at +-0, denormals, eps/2, eps -1/0/+1 ulp, 2 eps, 1e-4, 1e-2, 1 -2..+2 ulp (the series/closed-form switch), both signs; bessel_j0/1/2 at +-0, denormals, 1e-300, and 1e-5 / 0.5 / 5 with -2..+2 ulp, both signs; atan2 on both axes (both signs of the zero coordinate, denormal neighbours).",
+        "class = (function@point, type, part style); non-trivial = derivative parts not all zero. The point set is enumerated completely per type (exhaustive over (function, point, type)); derivative parts are random draws. Points: powi(0, n) n = 0..8 at +-0 and denormals; powf(0, p) for integer p = 0..7 and p in {1.5,...,6.5} exceeding the order of the type; exp_m1 / ln_1p at +-0, denormals and +-{1e-300, 1e-40, eps/4, 1e-10} (f32: 1e-30, 1e-12, eps/4, 1e-5); sph_j0/1/2 at +-0, denormals, eps/2, eps -1/0/+1 ulp, 2 eps, 1e-4, 1e-2, 1 -2..+2 ulp (the series/closed-form switch), both signs; bessel_j0/1/2 at +-0, denormals, 1e-300, and 1e-5 / 0.5 / 5 with -2..+2 ulp, both signs; atan2 on both axes (both signs of the zero coordinate, denormal neighbours).",
         &["truth from analytically known Taylor coefficients at the point (binomial for powers, Maclaurin series for the Bessel families, complex-log series for atan2); tolerance K*u*sum|terms| with an absolute floor at the denormal level", "orders above 6 (three or more nested levels of higher-order types) are outside the enumerated set"],
         extra,
         &required,
